@@ -44,6 +44,8 @@ pub struct Cfg {
     /// multiplies every case count (used by the self-test scripts for smoke runs)
     pub scale: f64,
     pub root: String,
+    /// replay decoder used for the saved regression cases under <root>/golden/<ID>-*.json
+    pub replay: Option<fn(&str, &mut Ctx, &Value) -> Result<(), Violation>>,
 }
 impl Cfg {
     pub fn n(&self, quick: u64, thorough: u64) -> u64 {
@@ -380,7 +382,12 @@ pub fn run_shards(
                         crate::crash::register(shard);
                         let mut ctx = Ctx::new(&cfg2.id, cfg2.tier, known);
                         let seedf = |stream: u64| shard_seed(&cfg2, shard, stream);
-                        let r = match catch_unwind(AssertUnwindSafe(|| body(shard, &mut ctx, &seedf))) {
+                        let r = match catch_unwind(AssertUnwindSafe(|| {
+                            if shard == 0 {
+                                replay_golden(&cfg2, &mut ctx)?;
+                            }
+                            body(shard, &mut ctx, &seedf)
+                        })) {
                             Ok(r) => r,
                             Err(_) => Err(Violation {
                                 prop: cfg2.id.clone(),
@@ -408,6 +415,35 @@ pub fn run_shards(
         }
     }
     Report { cfg: cfg.clone(), ctxs, violations, wall_s: t0.elapsed().as_secs_f64() }
+}
+
+/// Seconds-long replay tier: every saved regression case of this property is re-run first.
+fn replay_golden(cfg: &Cfg, ctx: &mut Ctx) -> Result<(), Violation> {
+    let f = match cfg.replay {
+        Some(f) => f,
+        None => return Ok(()),
+    };
+    let dir = format!("{}/golden", cfg.root);
+    let mut files: Vec<String> = match std::fs::read_dir(&dir) {
+        Ok(rd) => rd.filter_map(|e| e.ok()).map(|e| e.file_name().to_string_lossy().to_string()).collect(),
+        Err(_) => return Ok(()),
+    };
+    files.sort();
+    for name in files {
+        if !name.starts_with(&format!("{}-", cfg.id)) || !name.ends_with(".json") {
+            continue;
+        }
+        let text = std::fs::read_to_string(format!("{}/{}", dir, name)).unwrap_or_default();
+        let v: Value = match serde_json::from_str(&text) {
+            Ok(v) => v,
+            Err(_) => continue,
+        };
+        let case = if v.get("case").is_some() { v["case"].clone() } else { v.clone() };
+        ctx.class("golden:saved-case-replayed");
+        let id = cfg.id.clone();
+        run_one(ctx, |ctx| f(&id, ctx, &case))?;
+    }
+    Ok(())
 }
 
 fn sanitize(s: &str) -> String {
